@@ -6,7 +6,13 @@ let run (check : Sexp.t -> unit) : unit =
      while true do
        let line = input_line stdin in
        if String.length line > 0 then begin
-         (try check (Sexp.parse line)
+         (try
+            (match Sexp.parse line with
+             | Sexp.List (Sexp.Atom "case" :: Sexp.Atom id :: Sexp.Atom "crashed" :: rest) ->
+               (* the library panicked while the harness was building the operands of this case *)
+               Conv.result id "ERR" "library-panic"
+                 (String.concat " " (List.map Sexp.to_string rest))
+             | sx -> check sx)
           with
           | Sexp.Parse_error m -> Conv.result "?" "ERR" "parse" m
           | Conv.Nonfinite -> Conv.result "?" "ERR" "nonfinite" "non-finite float in dump"
